@@ -1172,7 +1172,13 @@ def replay(chk, data):
     r = data["replay"]
     print(data.get("what"))
     drv = chk.driver()
-    if r.get("mechanism") == "positive_number" or ("schema" in r and "value" in r):
+    if "correspondence" in r and "input" in r:      # a recorded model/implementation disagreement
+        print("mechanism:", r["correspondence"])
+        print("recorded model:", json.dumps(r.get("model"), default=str)[:1500])
+        print("recorded impl :", json.dumps(r.get("impl"), default=str)[:1500])
+        r = {**r["input"], "mechanism": "cases" if "params" in r["input"] else "cover"}
+    mech = r.get("mechanism")
+    if mech == "positive_number":
         s = r["schema"]
         out, rec, err = run_positive_number(s)
         print("schema:", json.dumps(s))
@@ -1182,6 +1188,42 @@ def replay(chk, data):
         print(f"model ({vz},{vx}):", [[g["mode"][:3], dec(g["value"]), g["desc"]] for g in m.get("out", [])], m.get("status"))
         if out is not None:
             print("valid (Lean spec):", judge_batch(chk, drv, [(s, [o["value"] for o in out])])[0])
+    elif mech == "cover":
+        s, mk, loc = r["schema"], r.get("modes", "PN"), r.get("location", "body")
+        out, rec, err = run_cover(s, mk, loc)
+        print("schema:", json.dumps(s), "modes:", mk, "location:", loc)
+        print("impl now:", brief(out), "" if err is None else f"raised {err!r}")
+        print("oracle:", [(c["req"], c["ans"]) for c in rec.calls])
+        vz, vx = detect_number_variants(chk)
+        try:
+            m = drv.one(*cover_request(s, wire_orc(rec), mk, loc, vz, vx))
+            print(f"model ({vz},{vx}) status={m.get('status')}:",
+                  [[g["mode"][:3], dec(g["value"]), g["desc"], g["loc"]] for g in m.get("out", [])])
+        except Unmodelled as e:
+            print("model: outside the wire format:", e)
+        if _encodable(out):
+            valid = judge_batch(chk, drv, [(s, [o["value"] for o in out])])[0]
+            for o, ok in zip(out, valid):
+                good = exempt(o["desc"]) or (ok if o["mode"] == "positive" else not ok)
+                print(f"  {'ok   ' if good else 'WRONG'} {o['mode']:8} {o['value']!r}  '{o['text']}'  valid={ok}")
+    elif mech == "cases":
+        ps = [tuple(p) for p in r["params"]]
+        body = [tuple(b) for b in r["body"]] if r.get("body") else None
+        run = run_cases(ps, body, r["methods"], r["modes"])
+        vb = detect_body_variant(chk)
+        print("operation:", json.dumps({"params": r["params"], "body": r.get("body"), "methods": r["methods"], "modes": r["modes"]}))
+        if run["err"] is not None:
+            print("impl now raised:", repr(run["err"]))
+        m = drv.one(*cases_request(run, r["modes"], vb))
+        mc = m.get("cases", [])
+        for i, c in enumerate(run["cases"]):
+            mm = mc[i] if i < len(mc) else None
+            flag = "" if py_case_label_ok(c) else "  <-- label"
+            print(f"  impl  {i}: {c['mode'][:3]} {c['comps']} '{c['text']}' {c['parameter']}@{c['parameter_location']}{flag}")
+            if mm is not None:
+                print(f"  model {i}: {mm['mode'][:3]} {mm['comps']} {mm['desc']} contents={mm['contents']} spec={mm['spec']}")
+        if "error" in m:
+            print("model:", m)
     else:
         print("input:", json.dumps(r, default=str)[:2000])
     return 0
